@@ -355,7 +355,12 @@ func (rd *remoteDelivery) newConn(ctx context.Context, domain string) (*mxConn, 
 			if len(records) != 0 {
 				rd.Log.Error("cannot use MX", err, "remote_server", record.Host, "domain", domain)
 			}
-			lastErr = err
+			// If any MX is unusable only temporarily, the whole attempt has
+			// to be retried later, even if MXs tried after it fail
+			// permanently.
+			if lastErr == nil || exterrors.IsTemporary(err) || !exterrors.IsTemporary(lastErr) {
+				lastErr = err
+			}
 			continue
 		}
 		break
